@@ -154,18 +154,74 @@ def sibling_pairs(fn):
     return out
 
 
+def _tests(fn, h, phi_id):
+    """keys of what the variable (or its stepped value) is compared with inside loop h"""
+    inside = fn.loops[h]["_set"]
+    vals = {phi_id}
+    for _ in range(3):
+        for bb in inside:
+            for i in fn.blocks[bb]["insts"]:
+                if "id" in i and i["op"] in ("add", "sub", "zext", "sext", "trunc") and i["ops"][0].get("id") in vals:
+                    vals.add(i["id"])
+    out = set()
+    for bb in inside:
+        for i in fn.blocks[bb]["insts"]:
+            if i["op"] == "icmp":
+                a, b = (_strip(fn, o) for o in i["ops"])
+                if a.get("id") in vals:
+                    out.add(_key(fn, b))
+                elif b.get("id") in vals:
+                    out.add(_key(fn, a))
+    return out
+
+
+def _tests_frozen(fn, h, k, others):
+    """does loop h compare the *start value* k itself (a loop-invariant there) with one of `others`?  -> the instruction"""
+    inside = fn.loops[h]["_set"]
+    for bb in inside:
+        for i in fn.blocks[bb]["insts"]:
+            if i["op"] == "icmp":
+                ka, kb = _key(fn, i["ops"][0]), _key(fn, i["ops"][1])
+                if (ka == k and kb in others) or (kb == k and ka in others):
+                    return i
+    return None
+
+
+def _mentions(fn, h, k):
+    inside = fn.loops[h]["_set"]
+    for bb in inside:
+        for i in fn.blocks[bb]["insts"]:
+            if i["op"] == "icmp" and any(_key(fn, o) == k for o in i["ops"]):
+                return True
+            if i["op"] == "phi" and bb == h and any(_key(fn, x["v"]) == k for x in i["incoming"] if x["bb"] not in inside):
+                return True
+    return False
+
+
 def disagreements(fn):
-    """[(stepping loop, silent loop, start key, delta, phi id)]"""
+    """[(stepping loop, silent loop, start key, delta, phi id, the dead test)]: one loop steps a variable and tests it against X, its
+    sibling tests the variable's start value against the same X but never steps it.  (A variable only one of them *has* -- an index
+    introduced by rewriting one copy -- is not a contradiction and is not reported.)"""
     out = []
     for (h1, h2, s1, s2) in sibling_pairs(fn):
         for (ha, sa, hb, sb) in ((h1, s1, h2, s2), (h2, s2, h1, s1)):
             for k, lst in sa.items():
-                da = sorted(str(x[0]) for x in lst)
-                db = sorted(str(x[0]) for x in sb.get(k, []))
-                if da != db and len(da) > len(db):
-                    out.append((ha, hb, k, lst[0][0], lst[0][1]))
-                elif da != db and len(da) == len(db) and ha == h1:
-                    out.append((ha, hb, k, "%s vs %s" % (da, db), lst[0][1]))
+                if len(lst) <= len(sb.get(k, [])):
+                    continue
+                for (d, pid) in lst:
+                    others = _tests(fn, ha, pid)
+                    t = _tests_frozen(fn, hb, k, others) if others else None
+                    if t is not None:
+                        out.append((ha, hb, k, d, pid, t))
+                        break
+                    # second form: the dead test is gone altogether (a test of an unchanged value that an earlier check of the function
+                    # already decided is folded away when the IR is built): an integer budget taken from the function's state that one
+                    # loop steps and tests and the other never even looks at.  Pointers and constant-started counters are left to the
+                    # first form -- a copy rewritten with an index legitimately has other cursors and counters.
+                    ty = fn.defs.get(pid, {}).get("ty", "")
+                    if others and k[0] != "c" and ty.startswith("i") and not _mentions(fn, hb, k):
+                        out.append((ha, hb, k, d, pid, fn.blocks[hb]["insts"][-1]))
+                        break
     return out
 
 
@@ -203,17 +259,17 @@ def rule(prog, report, prop, funcs=None, floor=MIN_PAIRS, broken=None):
         pairs += len(ps)
         if not ps:
             continue
-        for (ha, hb, k, d, pid) in disagreements(fn):
+        for (ha, hb, k, d, pid, dead) in disagreements(fn):
             limit = _feeds_size_limit(fn, ha, pid)
             if (prop == "C02") != limit:
                 continue
             la = fn.blocks[ha]["insts"][-1].get("line") or fn.line
-            lb = fn.blocks[hb]["insts"][-1].get("line") or fn.line
+            lb = dead.get("line") or fn.blocks[hb]["insts"][-1].get("line") or fn.line
             name = fn.name[1:-4] if fn.name.startswith("_") and fn.name.endswith("_chk") else fn.name
             what = ("the loop's source-size limit test is dead in that branch: an unterminated source is read past its object" if limit else
                     "the budget or position it keeps is wrong in that branch: the result differs from the standard function's")
             report("%s:sibling-loops-disagree:%s:%s" % (prop, name, pid.lstrip("%").split(".")[0]), "X-symmetric-loops-keep-the-same-books", "%s:%s" % (fn.file, lb),
-                   "%s: the copy loop at line %s steps %s by %s every element, its sibling for the other placement of dest and src (line %s) never does -- %s"
+                   "%s: the copy loop at line %s steps %s by %s every element and tests it; its sibling for the other placement of dest and src (line %s) makes that test on a value it never steps, or not at all -- %s"
                    % (name, la, pid, d, lb, what))
     if broken is not None and pairs < floor:
         broken("sibling rule: only %d pairs of symmetric copy loops found (< %d)" % (pairs, floor))
